@@ -197,8 +197,19 @@ def run_models(rng, nmodels, npoints, want=("F", "J"), module_every=8, kinds=Non
             for msg in layout_problems(b):
                 problems.append(dict(model=gm.describe(), what=msg, kind="layout"))
             pts = gen_points(gm, rng, npoints)
+            if "J" in want:
+                # a point with some state elements exactly 0: derivative entries that vanish there (d(x*z)/dz = x) must stay in the
+                # stored sparse pattern; only the pattern is judged at this point when it lies near a kink
+                t_, y_, ov_, yp_ = pts[-1]
+                yz = np.array(y_, dtype=float).copy()
+                mask = rng.random(yz.shape[0]) < 0.6
+                if not mask.any():
+                    mask[int(rng.integers(0, yz.shape[0]))] = True
+                yz[mask] = 0.0
+                pts.append((t_, yz, ov_, yp_))
             eq_names = [e[0] for e in gm.eqs]
             for pi, (t, y, overrides, yprev) in enumerate(pts):
+                zero_point = ("J" in want) and pi == len(pts) - 1
                 margins = []
                 env = dict(y=y, yprev=yprev, p=lang.par_values(gm, overrides, None if gm.kind == "AE" else t, y))
                 ref = []
@@ -215,8 +226,10 @@ def run_models(rng, nmodels, npoints, want=("F", "J"), module_every=8, kinds=Non
                 stats["points"] += 1
                 near_kink = bool(margins) and min(margins) < KINK
                 for which in want:
-                    if which == "J" and near_kink:
+                    if which == "J" and near_kink and not zero_point:
                         stats["kink_rejected"] += 1
+                        continue
+                    if which != "J" and zero_point:
                         continue
                     lines.append(lang.request(which, gm, y, pflat, yprev))
                     real = {}
@@ -230,7 +243,8 @@ def run_models(rng, nmodels, npoints, want=("F", "J"), module_every=8, kinds=Non
                             real[label] = (ex, None, eqs, y0)
                         finally:
                             restore_params(nd, gm)
-                    slots.append(dict(gm=gm, pi=pi, which=which, real=real, point=dict(t=t, y=[float(v) for v in y], overrides=overrides,
+                    slots.append(dict(gm=gm, pi=pi, which=which, real=real, pattern_only=bool(which == "J" and zero_point),
+                                      point=dict(t=t, y=[float(v) for v in y], overrides=overrides,
                                                                                       yprev=[float(v) for v in yprev]),
                                       ref=np.concatenate(ref) if which == "F" else None, eq_names=eq_names))
         try:
@@ -315,6 +329,8 @@ def judge_J(rec):
         rows = reorder_rows(val, eqs, rec["eq_names"], gm)
         if val.shape != (nr, nc):
             out.append((label, f"J has shape {val.shape}, expected ({nr}, {nc})", "shape")); continue
+        if rec.get("pattern_only"):
+            continue
         got = val[rows, :]
         # entries where the reference derivative is not finite (inf * 0 after a division by a zero parameter) have no
         # mathematical value at this point: they are not compared
@@ -330,4 +346,39 @@ def judge_J(rec):
                 [(k, c) for k in range(nr) for c in range(nc) if Jm[k, c] != 0 and (rows[k], c) not in pattern]
             if missing:
                 out.append((label, f"entries {missing[:4]} are non-zero but missing from the sparse pattern", "pattern"))
+    return out
+
+
+def judge_pattern(records):
+    """structural sparse pattern: an entry that is non-zero at SOME evaluated point of a model must be stored in the pattern at
+    EVERY evaluated point (the pattern may not depend on the values).  -> list of (record, label, message)"""
+    out = []
+    groups = {}
+    for r in records:
+        if r["which"] == "J":
+            groups.setdefault(id(r["gm"]), []).append(r)
+    for recs in groups.values():
+        union = {}
+        for r in recs:
+            ans = r["model_answer"]
+            if not ans.startswith("ok") or r.get("pattern_only"):
+                continue
+            w = ans.split()
+            nr, nc = int(w[1]), int(w[2])
+            Jm = np.array([h2f(x) for x in w[3:]]).reshape(nr, nc)
+            for k in range(nr):
+                for c in range(nc):
+                    if np.isfinite(Jm[k, c]) and Jm[k, c] != 0:
+                        union[(k, c)] = True
+        if not union:
+            continue
+        for r in recs:
+            for label, (val, pattern, eqs, y0) in r["real"].items():
+                if pattern is None or isinstance(val, Exception):
+                    continue
+                rows = reorder_rows(val, eqs, r["eq_names"], r["gm"])
+                missing = [(k, c) for (k, c) in union if k < len(rows) and (rows[k], c) not in pattern]
+                if missing:
+                    out.append((r, label, f"entries {sorted(missing)[:5]} (declaration order) are non-zero at other points of the same model "
+                                          f"but missing from the sparse pattern stored at y = {np.round(r['point']['y'], 4).tolist()}"))
     return out
